@@ -14,7 +14,7 @@ LEVEL = 'model_checking'
 ENGINE = 'E2'
 TECHNIQUE = ('explicit-state breadth-first search over decode histories on the real decoder: a state is the canonical '
              'fingerprint of every module-level mutable object of the repository\'s packages (parser caches, registries, class '
-             'attributes, mutable defaults, functools caches, loaded plug-in modules), a transition decodes one PEL of a 24-PEL '
+             'attributes, mutable defaults, functools caches, loaded plug-in modules), a transition decodes one PEL of a 30-PEL '
              'x {plug-ins on, off} event alphabet; each state is rebuilt by restoring the pristine module state (verified by '
              'fingerprint and against a separate interpreter) and replaying its shortest history; every transition\'s document is compared with the fresh-interpreter document; all event sequences '
              'of length 2 (thorough 3) additionally run without state merging')
@@ -24,9 +24,9 @@ LEVEL_TEXT = ('History independence is a reachability question over the decoder\
               'fingerprint is generic (everything mutable at module/class scope), so state hoisted there by a change joins the '
               'search automatically; the un-merged depth-2 pass guards against state the fingerprint cannot see. Directory '
               'modes (-a, -a -r, -l) are compared with per-file decodes.')
-LEVEL_NOTE = ('depth bound 3 (quick) / 5 (thorough) beyond which only fingerprint-distinct states are extended; state kept '
+LEVEL_NOTE = ('depth bound 2 (quick) / 4 (thorough) beyond which only fingerprint-distinct states are extended; state kept '
               'outside the repository\'s modules (e.g. in the interpreter) is covered only by the un-merged depth-2 pass')
-RULE = ('events = 24 PELs (built-in JSON, fixture parser ok / raising / ImportError in call / None / absent module, callouts '
+RULE = ('events = 30 PELs (built-in JSON, fixture parser ok / raising / ImportError in call / None / absent module, callouts '
         'module ok / raising, SRC parser ok / raising, two-target LP, PEL truncated mid-SRC / mid-LP, BMC PEL with shipped '
         'parsers, I/O-drawer PEL, hw-diags PEL) x plug-ins {on, off}; BFS over fingerprints from each first event; plus all '
         'event sequences of length 2 (thorough 3) without merging; plus 3 directory runs. Non-trivial: a transition taken from a non-initial '
@@ -100,6 +100,20 @@ def pel_specs():
     specs['b_ud_e500'] = {'creator': 'B', 'eid': 0x50000016, 'sections': [
         {'t': 'UD', 'comp': 0xE500, 'sub': 1, 'payload': ((1).to_bytes(4, 'big') + bytes(range(12))).hex()},
         {'t': 'UD', 'comp': 0x2000, 'sub': 1, 'payload': pelgen.json_payload({'k': 'not builtin for B'})}]}
+    # the same numeric component id under creators that display it differently (PHYP: two ASCII characters)
+    specs['phyp_ascii'] = {'creator': 'H', 'eid': 0x50000018, 'comp': 0x4142, 'uh': {'comp': 0x4344},
+                           'sections': [{'t': 'PS', 'comp': 0x4546}, {'t': 'MT', 'comp': 0x4142}]}
+    specs['o_same_comp'] = {'creator': 'O', 'eid': 0x50000019, 'comp': 0x4344, 'uh': {'comp': 0x4142},
+                            'sections': [{'t': 'PS', 'comp': 0x4142}, {'t': 'UD', 'comp': 0x4546, 'payload': '0a0b'}]}
+    # PELs that only a --severities option selects (informational, not reportable)
+    specs['info_a'] = {'creator': 'O', 'eid': 0x5000001A, 'uh': {'sev': 0x00, 'flags': 0x0000}, 'sections': [{'t': 'PS', 'ascii': 'BD8D0A0A'.ljust(32)}]}
+    specs['info_b'] = {'creator': 'B', 'eid': 0x5000001B, 'uh': {'sev': 0x10, 'flags': 0x0000}, 'sections': [{'t': 'PS', 'ascii': 'BC8A0B0B'.ljust(32)}]}
+    specs['info_c'] = {'creator': 'O', 'eid': 0x5000001C, 'uh': {'sev': 0x00, 'flags': 0x4000}, 'sections': [{'t': 'MT'}]}
+    # shipped plug-ins that raise on their payload (too few signatures for the count; unknown drawer version)
+    specs['hw_raise'] = {'creator': 'O', 'eid': 0x50000017, 'sections': [
+        {'t': 'UD', 'comp': 0xE500, 'sub': 1, 'payload': ((5).to_bytes(4, 'big') + bytes(range(12))).hex()},
+        {'t': 'UD', 'comp': 0xE500, 'sub': 2, 'payload': ((1).to_bytes(4, 'big') + bytes(range(9))).hex()},
+        {'t': 'ED', 'creator': 'M', 'comp': 0x2C00, 'sub': 84, 'ver': 7, 'payload': '0102030405060708'}]}
     raw = collections.OrderedDict()
     for k, s in specs.items():
         raw[k] = pelgen.encode_pel(pelgen.pel_from_spec(s))
@@ -114,11 +128,11 @@ EVENTS = [(n, True) for n in NAMES] + [(n, False) for n in NAMES]
 
 
 def bounds(tier):
-    return {'events': len(EVENTS), 'depth': 3 if tier == 'quick' else 5, 'unmerged_sequence_length': 2 if tier == 'quick' else 3}
+    return {'events': len(EVENTS), 'depth': 2 if tier == 'quick' else 4, 'unmerged_sequence_length': 2 if tier == 'quick' else 3}
 
 
 def plan(tier, seed):
-    ch = [{'k': 'bfs', 'first': i, 'depth': 3 if tier == 'quick' else 5} for i in range(len(EVENTS))]
+    ch = [{'k': 'bfs', 'first': i, 'depth': 2 if tier == 'quick' else 4} for i in range(len(EVENTS))]
     for i in range(len(EVENTS)):
         ch.append({'k': 'pairs', 'first': i, 'depth': 2 if tier == 'quick' else 3})
     ch.append({'k': 'dir'})
@@ -223,8 +237,13 @@ def _merge(a, b):
 
 
 def _fire(ev, hist, refs):
+    before = statefp.process_state()
     got = observe(ev)
+    after = statefp.process_state()
     r = _empty()
+    if after != before:
+        r['viol'].append({'key': 'C19:process-state-changed', 'what': 'decoding %s left interpreter-wide state changed: %s' % (
+            EVENTS[ev], [x for x in after if x not in before]), 'case': {'history': hist, 'event': ev}})
     r['trans'] = 1
     r['nontrivial'] = 1 if hist else 0
     r['outcomes'] = ['same:' + got[0] if got == refs[ev] else 'differs']
@@ -276,7 +295,10 @@ def run_chunk(chunk):
     k = chunk['k']
     if k == 'dir':
         for case in ({'k': 'dir', 'args': ['-a', '-E']}, {'k': 'dir', 'args': ['-a', '-E', '-r']}, {'k': 'dir', 'args': ['-a', '-E', '-P']},
-                     {'k': 'dir', 'args': ['-l', '-E']}, {'k': 'dir', 'args': ['-l', '-E', '-r']}):
+                     {'k': 'dir', 'args': ['-l', '-E']}, {'k': 'dir', 'args': ['-l', '-E', '-r']},
+                     {'k': 'dir', 'args': ['-a', '-S', 'Informational', 'Recovered']},
+                     {'k': 'dir', 'args': ['-a', '-r', '-S', 'Informational', 'Recovered']},
+                     {'k': 'dir', 'args': ['-a', '-O', '-H', '-S', 'Informational']}, {'k': 'dir', 'args': ['-l', '-r', '-S', 'Recovered', 'Informational']}):
             core.arm(120)
             vs = _dir_case(case)
             core.disarm()
@@ -331,10 +353,17 @@ def _dir_case(case):
                 f.write(PELS[n])
         plugins = '-P' not in case['args']
         want = []
+        from mc.ref import select as rsel
+        a = case['args']
+        groups = [rsel.GROUP_DIGIT[g] for g in a if g in rsel.GROUP_DIGIT]
         for n in NAMES:
             ref = reference((n, plugins))
             if ref[0] == 'doc':
-                want.append(json.loads(ref[1]))
+                docj = json.loads(ref[1])
+                uhb = PELS[n][48 + 10], int.from_bytes(PELS[n][48 + 18:48 + 20], 'big')     # severity byte, action flags
+                if rsel.selected(uhb[0], uhb[1], every='-E' in a, s='-s' in a, N='-N' in a, H='-H' in a, t='-t' in a,
+                                 only='-O' in a, groups=groups):
+                    want.append(docj)
         if '-r' in case['args']:
             want.reverse()
         reset()
